@@ -91,6 +91,22 @@ func C16(run *mon.Run) {
 			if err != nil || !bytes.Equal(pop, encE) {
 				run.Violate("C16:pop-mismatch:"+key.name, fmt.Sprintf("BLSGeneratePOP = %x (err %v), reference [k]H_pop(enc(pk)) = %x", pop, err, encE), map[string]any{"k": key.k.String()})
 			}
+			// the same key held in non-affine coordinates, and Encode() must not hand out internal storage
+			jk := jacobianForm(pk, r)
+			if ok, e := crypto.BLSVerifyPOP(jk, encE); !ok || e != nil {
+				run.Violate("C16:rejects-own-pop:jacobian-form-key", fmt.Sprintf("BLSVerifyPOP under the same key in Jacobian form = (%v,%v)", ok, e), map[string]any{"k": key.k.String()})
+			}
+			scratch := pk.Encode()
+			for i := range scratch {
+				scratch[i] ^= 0xA5
+			}
+			if ok, e := crypto.BLSVerifyPOP(pk, encE); !ok || e != nil || !bytes.Equal(pk.Encode(), enc) {
+				run.Violate("C16:encode-aliases-internal-state", "after the caller modified the slice returned by Encode(), the key's PoP no longer verifies or Encode() changed", map[string]any{"k": key.k.String()})
+			}
+			if p2, e := crypto.BLSGeneratePOP(key.sk); e != nil || !bytes.Equal(p2, encE) {
+				run.Violate("C16:encode-aliases-internal-state", "after the caller modified the slice returned by Encode(), BLSGeneratePOP changed", map[string]any{"k": key.k.String()})
+			}
+			run.Eval(3)
 			full := ki < run.Pick(3, 10)
 			cs := g1Candidates(E, H, r, 20, full)
 			for _, c := range cs {
